@@ -22,3 +22,17 @@ Example C08_example :
   realm_matches [97;46;98] [117;64;97;46;98;99] = Some false /\   (* ... not "u@a.bc" *)
   realm_matches [97;46;98] [117;64;120;97;46;98] = Some false.    (* ... not "u@xa.b" *)
 Proof. vm_compute. repeat split. Qed.
+
+From RSP Require Import Ttl Crypt Packet Rewrite Choose Proxy Slots_proofs Dup_proofs Reply_proofs Forward_proofs.
+Local Open Scope N_scope.
+
+(* routing through the handler: the request goes to a server of the FIRST realm block, in configuration order,
+   whose expression matches the (rewritten) User-Name; accounting servers for Accounting-Request *)
+Theorem C08_first_matching_realm : forall md5 rx cfg fs st h c now rnd s i b,
+  In (OEnq s i b) (snd (radsrv md5 rx cfg fs st h c now rnd)) ->
+  exists uname rl pre post acct,
+    cf_realms cfg = pre ++ rl :: post /\
+    (forall q, In q pre -> rx (rl_rx q) (cstr uname) = None) /\ rx (rl_rx rl) (cstr uname) <> None /\
+    In s (if acct : bool then rl_acc rl else rl_srv rl) /\ existsb (N.eqb 0) uname = false.
+Proof. exact forward_first_realm. Qed.
+Print Assumptions C08_first_matching_realm.
